@@ -19,7 +19,9 @@ def main():
         try:
             j = json.loads(line[len(prop) + 1:])
         except Exception:
-            j = {'rc': '?', 'lines': [out[-300:]]}
+            import re        # seed_test cuts the line at 700 characters
+            m = re.search(r'"rc": (\d+)', line)
+            j = {'rc': int(m.group(1)) if m else '?', 'lines': [out[-300:]]}
         sigs = [l.strip().split(' | ')[0] for l in out.splitlines() if l.startswith('     ')]
         concrete = [s for s in sigs if s and s != 'None']
         rows.append(f"{d.name:7s} {prop} rc={j.get('rc')} {'CAUGHT' if j.get('rc') == 1 else 'MISSED'} "
